@@ -35,7 +35,7 @@ def replay_source(spec, c_src, prev):
     src = REPLAY_PRELUDE + passes.IMPORTS + passes.APPLY_SRC + c_src + "\nimport itertools\n" + f"spec={spec!r}\nbefore=circ.snapshot(c)\nbad=[]\n"
     if prev is not None:
         src += (circ.circ_src(prev, "prev") + "\nobj=eval(spec)\n"
-                "run=lambda x: Transformer.apply_transformers(x, obj) if isinstance(obj, list) else obj.transform(x)\n"
+                "run=lambda x: Transformer.apply_transformers(x, obj) if (isinstance(obj, list) or hasattr(obj, '__next__')) else obj.transform(x)\n"
                 "try:\n    run(prev)\n    r=run(c)\nexcept Exception as e:\n    print(type(e).__name__, e); sys.exit(1)\n")
     else:
         src += "try:\n    r=apply_spec(spec, c)\nexcept Exception as e:\n    print(type(e).__name__, e); sys.exit(1)\n"
@@ -66,7 +66,7 @@ def check_pass(p, name, c, spec, prev=None):
         if prev is not None:
             # one fresh pass object, applied to `prev` and then to `c` (exactly what the replay does)
             obj = eval(spec, dict(passes.NS))  # noqa: S307
-            run_obj = (lambda x: passes.Transformer.apply_transformers(x, obj)) if isinstance(obj, list) else obj.transform
+            run_obj = (lambda x: passes.Transformer.apply_transformers(x, obj)) if passes.is_pipeline_object(obj) else obj.transform
             run_obj(rebuild(prev))
             r = run_obj(c)
         else:
@@ -143,7 +143,7 @@ def unit(p, item, tier, seed):
         canary(p)
     prev_c = None
     for name, c in fam:
-        chosen = specs if (tier == "thorough" and name.startswith("seeded") is False) else (passes.BASIC + ["cleanup(False)", "cleanup(True)"] + rnd.sample(specs, min(6, len(specs))))
+        chosen = specs if (tier == "thorough" and name.startswith("seeded") is False) else (passes.BASIC + ["cleanup(False)", "cleanup(True)"] + passes.ONE_SHOT[:2] + rnd.sample(specs, min(6, len(specs))))
         for spec in chosen:
             if "ME()" in spec or spec == "cleanup(True)":
                 if len(c.inputs) > 6:
